@@ -31,8 +31,18 @@ def _scenario(rnd):
     t = rnd.choice([0, 1, 5, 9])
     y = rnd.randint(0, 3)
     kind = rnd.choice(['same_round', 'swallowed', 'swallowed_inside', 'two_aborts', 'handler_then_abort',
-                       'nonfatal_then_fatal'])
-    if kind == 'same_round':
+                       'nonfatal_then_fatal', 'early_init_fails'])
+    if kind == 'early_init_fails':
+        # an external event makes a block run its synchronous initialisation early, while another
+        # block's asynchronous routine is still pending; the routine fails (for good or only this
+        # once), the sender catches the exception: the simulation must not come up all the same
+        blocks = [{'kind': 'ia', 'idur': rnd.choice([4, 6]), 'itmo': 12},
+                  {'kind': rnd.choice(['plain', 'pplain']), 'fault': rnd.choice(['init_regular', 'init_regular_once'])},
+                  {'kind': rnd.choice(['plain', 'slowstop', 'timer'])}]
+        actions = [{'t': rnd.choice([0, 1, 2]), 'yields': rnd.randint(1, 3), 'op': 'ext', 'dest': 2,
+                    'shape': {'value': 2}},
+                   {'t': 3, 'yields': 0, 'op': 'ext', 'dest': 2, 'shape': {'value': 3}}]
+    elif kind == 'same_round':
         # a stop request and a failing calc_output in one evaluation round of the simulator
         # (the evaluation order within a round is up to the simulator: several of each kind)
         blocks = [{'kind': 'cb', 'trigger': 666, 'ctrl': rnd.choice(['shutdown', 'shutdown', 'abort'])}]
